@@ -360,3 +360,59 @@ func batchDischarge(u *Unit, obls []*Obligation, dir string, perQueryMs int) {
 		}
 	}
 }
+
+// coverPass (thorough tier): for every obligation of the unit, is its path condition satisfiable together with the
+// facts visible to it? An unsatisfiable guard means the obligation holds vacuously (dead code, or an over-strong
+// assumption/invariant upstream). The result is informational and listed in the evidence.
+func coverPass(u *Unit, obls []*Obligation, dir string) {
+	if len(obls) == 0 {
+		return
+	}
+	var sb strings.Builder
+	sb.WriteString(u.smtHeader(len(u.cmds)))
+	sb.WriteString("(set-option :timeout 1500)\n")
+	nf := 0
+	seen := map[string]int{}
+	var order []*Obligation
+	for _, o := range obls {
+		if o.rawSMT != "" {
+			continue
+		}
+		for nf < o.NFacts {
+			sb.WriteString("(assert " + u.facts[nf] + ")\n")
+			nf++
+		}
+		if _, dup := seen[o.Guard.S]; dup {
+			continue
+		}
+		seen[o.Guard.S] = len(order)
+		order = append(order, o)
+		sb.WriteString("(push 1)\n(assert " + o.Guard.S + ")\n(check-sat)\n(pop 1)\n")
+	}
+	file := filepath.Join(dir, fmt.Sprintf("c%06d.smt2", obls[0].id))
+	if err := os.WriteFile(file, []byte(sb.String()), 0o666); err != nil {
+		return
+	}
+	ctx, cancel := context.WithTimeout(context.Background(), time.Duration(2*len(order)+20)*time.Second)
+	defer cancel()
+	cmd := exec.CommandContext(ctx, "z3-new", "smt.random_seed="+seedStr, file)
+	var out bytes.Buffer
+	cmd.Stdout = &out
+	cmd.Stderr = &out
+	_ = cmd.Run()
+	var answers []string
+	for _, l := range strings.Split(out.String(), "\n") {
+		l = strings.TrimSpace(l)
+		switch l {
+		case "sat", "unsat", "unknown", "timeout":
+			answers = append(answers, l)
+		}
+	}
+	for _, o := range obls {
+		idx, ok := seen[o.Guard.S]
+		if !ok || idx >= len(answers) {
+			continue
+		}
+		o.GuardCover = answers[idx]
+	}
+}
